@@ -52,18 +52,18 @@ type link struct {
 }
 
 type run struct {
-	t     *tape.Tape
-	log   *core.Log
-	res   *core.Result
-	net   *route.Network
-	opt   route.MinimizeOption
-	g     int
-	links []link
-	pairs map[[2]int]int
-	nodes map[int]geom.Point // lattice idx -> first location seen (what the network stores)
-	perms core.Hasher
-	permute bool
-	states  map[uint64]struct{}
+	t          *tape.Tape
+	log        *core.Log
+	res        *core.Result
+	net        *route.Network
+	opt        route.MinimizeOption
+	g          int
+	links      []link
+	pairs      map[[2]int]int
+	nodes      map[int]geom.Point // lattice idx -> first location seen (what the network stores)
+	perms      core.Hasher
+	permute    bool
+	states     map[uint64]struct{}
 	nontrivial bool
 }
 
